@@ -8,7 +8,11 @@ Extracted (Python `ast`, nothing is executed):
   * the operator character `Star/Plus/Option.format_as_spec` append;
   * that `Alternative.format_as_spec` is `"(" + " | ".join(…) + ")"`, `Concatenation.format_as_spec`
     `" ".join(…)`, and the three shapes of `NonTerminalNode.format_as_spec`;
-  * `nodes.MAX_REPETITIONS`.
+  * `nodes.MAX_REPETITIONS`;
+  * that the printer functions the hand-written parts of the model mirror (`Terminal.format_as_spec` /
+    `_spell_regex`, every `format_as_spec` of `language/search.py`, `RepetitionBoundsConstraint._format_bound` /
+    `format_bounds_as_spec`, `LiteralGenerator.format_as_spec`, `Grammar.__repr__` / `get_repr_for_rule`) still read as
+    they did when the model was written (`MIRRORED`).
 The result is `FV.Generated.printCfg : PrintCfg`; `Props/C15.lean` proves its theorems for *that*
 value, so reverting ec9ecf03 (or any other change of these choices) breaks the proofs.  A shape the
 translator does not understand is a refusal: the generated configuration is then the "nothing is
@@ -128,9 +132,13 @@ def repetition_shape(mod: ast.Module) -> dict[str, Any]:
     if body and isinstance(body[0], ast.If) and ast.unparse(body[0].test) == "self.bounds_constraint is not None" \
             and not body[0].orelse and len(body[0].body) == 1 and isinstance(body[0].body[0], ast.Return) \
             and _template(body[0].body[0].value).startswith(o):
-        # computed bounds `{int(<n>)}` are printed from their expressions: outside the model (differential only)
+        # computed bounds `{int(<n>)}` are printed from their expressions (`ENode.crep`, `printCB` of the model)
+        if _template(body[0].body[0].value) != o + "⟦self.bounds_constraint.format_bounds_as_spec()⟧":
+            raise Refusal("Repetition.format_as_spec prints computed bounds in an unknown way: " + ast.unparse(body[0]))
         body = body[1:]
         out["computedBoundsPrinted"] = True
+    else:
+        raise Refusal("Repetition.format_as_spec does not print computed bounds from the bounds constraint (16243b00)")
     if len(body) == 3 and if_return(body[0], "self._max is None", t_open) \
             and if_return(body[1], "self.min == self.max", t_eq) and last_return(body[2], t_rng):
         out["openBound"] = True
@@ -183,6 +191,152 @@ def other_shapes() -> dict[str, Any]:
     return out
 
 
+# ------------------------------------------------------------------------------------------------
+# printer functions that hand-written parts of the model mirror line by line (Model/PyLit.lean regex terminals,
+# Model/PrintSearch.lean, computed bounds / generators / productions of Model/Print.lean): their normalised source
+# (`ast.unparse`, docstrings stripped).  Any change is a refusal: the model has to be re-read against the code.
+# ------------------------------------------------------------------------------------------------
+
+MIRRORED: dict[tuple[str, str, str], str] = {('constraints/repetition_bounds.py', 'RepetitionBoundsConstraint', '_format_bound'): 'expr, _, searches = '
+                                                                                      'expr_data\n'
+                                                                                      'for identifier, search in '
+                                                                                      'searches.items():\n'
+                                                                                      '    expr = '
+                                                                                      'expr.replace(identifier, '
+                                                                                      'search.format_as_spec())\n'
+                                                                                      'return expr',
+ ('constraints/repetition_bounds.py', 'RepetitionBoundsConstraint', 'format_bounds_as_spec'): 'lower = '
+                                                                                              'self._format_bound(self.expr_data_min)\n'
+                                                                                              'if self.expr_data_max '
+                                                                                              'is '
+                                                                                              'self.expr_data_min:\n'
+                                                                                              '    return '
+                                                                                              "f'{{{lower}}}'\n"
+                                                                                              'if '
+                                                                                              'self.repetition_node.internal_max '
+                                                                                              'is None and '
+                                                                                              'self.expr_data_max[0].isdigit():\n'
+                                                                                              '    return '
+                                                                                              "f'{{{lower},}}'\n"
+                                                                                              'return '
+                                                                                              "f'{{{lower},{self._format_bound(self.expr_data_max)}}}'",
+ ('language/grammar/grammar.py', 'Grammar', '__repr__'): "return '\\n'.join([f'{key.name()} ::= "
+                                                         "{value.format_as_spec()}{(' := ' + "
+                                                         'self.generators[key].format_as_spec() if key in '
+                                                         "self.generators else '')}' for key, value in "
+                                                         'self.rules.items()])',
+ ('language/grammar/grammar.py', 'Grammar', 'get_repr_for_rule'): 'if isinstance(symbol, str):\n'
+                                                                  '    symbol = NonTerminal(symbol)\n'
+                                                                  "return f'{symbol.format_as_spec()} ::= "
+                                                                  "{self.rules[symbol].format_as_spec()}{(' := ' + "
+                                                                  'self.generators[symbol].format_as_spec() if '
+                                                                  "symbol in self.generators else '')}'",
+ ('language/grammar/literal_generator.py', 'LiteralGenerator', 'format_as_spec'): 'representation = str(self.call)\n'
+                                                                                  'for identifier, nonterminal in '
+                                                                                  'self.nonterminals.items():\n'
+                                                                                  '    representation = '
+                                                                                  'representation.replace(identifier, '
+                                                                                  'nonterminal.format_as_spec())\n'
+                                                                                  'return representation',
+ ('language/search.py', 'AnnotatedSearch', 'format_as_spec'): 'return self._inner.format_as_spec()',
+ ('language/search.py', 'AttributeSearch', 'format_as_spec'): 'return '
+                                                              "f'{self.base.format_as_spec()}.{self.attribute.format_as_spec()}'",
+ ('language/search.py', 'DescendantAttributeSearch', 'format_as_spec'): 'return '
+                                                                        "f'{self.base.format_as_spec()}..{self.attribute.format_as_spec()}'",
+ ('language/search.py', 'ItemSearch', 'format_as_spec'): 'slice_reprs = []\n'
+                                                         'for slice_ in self.slices:\n'
+                                                         '    if isinstance(slice_, slice):\n'
+                                                         "        slice_repr = ''\n"
+                                                         '        if slice_.start is not None:\n'
+                                                         '            slice_repr += repr(slice_.start)\n'
+                                                         "        slice_repr += ':'\n"
+                                                         '        if slice_.stop is not None:\n'
+                                                         '            slice_repr += repr(slice_.stop)\n'
+                                                         '        if slice_.step is not None:\n'
+                                                         "            slice_repr += ':' + repr(slice_.step)\n"
+                                                         '        slice_reprs.append(slice_repr)\n'
+                                                         '    else:\n'
+                                                         '        slice_reprs.append(repr(slice_))\n'
+                                                         "return f'{self.base.format_as_spec()}[{', "
+                                                         "'.join(slice_reprs)}]'",
+ ('language/search.py', 'LengthSearch', 'format_as_spec'): 'if self.value.IS_STAR:\n'
+                                                           "    return f'len({self.value.format_as_spec()})'\n"
+                                                           "return f'|{self.value.format_as_spec()}|'",
+ ('language/search.py', 'RuleSearch', 'format_as_spec'): 'return self.symbol.format_as_spec()',
+ ('language/search.py', 'SelectiveSearch', 'format_as_spec'): 'slice_reprs: list[str] = []\n'
+                                                              'for (symbol, is_direct), items in zip(self.symbols, '
+                                                              'self.slices):\n'
+                                                              "    slice_repr = f'{('' if is_direct else "
+                                                              "'*')}{symbol.format_as_spec()}'\n"
+                                                              '    if items is not None:\n'
+                                                              "        slice_repr += ': '\n"
+                                                              '        if isinstance(items, slice):\n'
+                                                              '            if items.start is not None:\n'
+                                                              '                slice_repr += repr(items.start)\n'
+                                                              "            slice_repr += ':'\n"
+                                                              '            if items.stop is not None:\n'
+                                                              '                slice_repr += repr(items.stop)\n'
+                                                              '            if items.step is not None:\n'
+                                                              "                slice_repr += ':' + repr(items.step)\n"
+                                                              '        else:\n'
+                                                              '            slice_repr += repr(items)\n'
+                                                              '    slice_reprs.append(slice_repr)\n'
+                                                              "return f'{self.base.format_as_spec()}{{{', "
+                                                              "'.join(slice_reprs)}}}'",
+ ('language/search.py', 'StarSearch', 'format_as_spec'): "return f'*{self.base.format_as_spec()}'",
+ ('language/symbols/terminal.py', 'Terminal', '_spell_regex'): 'def spell(char: str) -> str | None:\n'
+                                                               "    if char == quote or char in '\\n\\r' or "
+                                                               "(ascii_only and (not ' ' <= char <= '~')):\n"
+                                                               "        return f'\\\\x{ord(char):02x}'\n"
+                                                               '    return None\n'
+                                                               'result = []\n'
+                                                               'i = 0\n'
+                                                               'while i < len(pattern):\n'
+                                                               '    char = pattern[i]\n'
+                                                               "    if char == '\\\\' and i + 1 < len(pattern):\n"
+                                                               '        escaped = spell(pattern[i + 1])\n'
+                                                               '        result.append(char + pattern[i + 1] if '
+                                                               'escaped is None else escaped)\n'
+                                                               '        i += 2\n'
+                                                               '    else:\n'
+                                                               '        spelled = spell(char)\n'
+                                                               '        result.append(char if spelled is None else '
+                                                               'spelled)\n'
+                                                               '        i += 1\n'
+                                                               "return ''.join(result)",
+ ('language/symbols/terminal.py', 'Terminal', 'format_as_spec'): 'if self.is_regex:\n'
+                                                                 '    if '
+                                                                 'self.is_type(TreeValueType.TRAILING_BITS_ONLY):\n'
+                                                                 '        return "r\'" + str(self._value) + "\'"\n'
+                                                                 '    if self.is_type(TreeValueType.BYTES):\n'
+                                                                 "        prefix = 'rb'\n"
+                                                                 '        pattern = '
+                                                                 "self._value.to_bytes().decode('latin-1')\n"
+                                                                 '    else:\n'
+                                                                 "        prefix = 'r'\n"
+                                                                 '        pattern = str(self._value)\n'
+                                                                 "    ascii_only = prefix == 'rb'\n"
+                                                                 '    if "\'" not in pattern:\n'
+                                                                 '        return '
+                                                                 'f"{prefix}\'{Terminal._spell_regex(pattern, None, '
+                                                                 'ascii_only)}\'"\n'
+                                                                 '    if \'"\' not in pattern:\n'
+                                                                 '        return '
+                                                                 'f\'{prefix}"{Terminal._spell_regex(pattern, None, '
+                                                                 'ascii_only)}"\'\n'
+                                                                 '    return '
+                                                                 'f"{prefix}\'{Terminal._spell_regex(pattern, '
+                                                                 'chr(39), ascii_only)}\'"\n'
+                                                                 'return repr(self._value)'}
+
+
+def mirrored_sources() -> None:
+    for (rel, cls, fn), want in MIRRORED.items():
+        got = "\n".join(ast.unparse(s) for s in strip_doc(find_func(find_class(_parse(rel), cls), fn)))
+        if got != want:
+            raise Refusal(f"{rel}: {cls}.{fn} is no longer the function the model mirrors; it reads now:\n{got}")
+
+
 UNKNOWN = {"altParens": False, "parenCat": False, "parenRep": False, "parenAlt": False, "openBound": False,
            "starTok": ".star", "plusTok": ".plus", "optTok": ".quest"}
 
@@ -208,6 +362,7 @@ def regenerate() -> dict[str, Any]:
     try:
         vals.update(repetition_shape(_parse(NODES + "repetition.py")))
         vals.update(other_shapes())
+        mirrored_sources()
         cap = int(module_constant(_parse(NODES + "__init__.py"), "MAX_REPETITIONS"))
     except Refusal as e:
         refusals.append(str(e))
